@@ -297,3 +297,38 @@ Theorem outside_fast_path_does_not_pin :
   outs sh0 c1 ops_outside_fast =
   [RIntern 100 0 PCold; RIntern 100 0 PFast; RNewRev; RIntern 100 1 PReuse].
 Proof. vm_compute. reflexivity. Qed.
+
+(* ---------- C22: an interning cut short by a panic in user code ---------- *)
+
+(* the reuse of ops_reuse, cut inside `clear_memos` (DidDiscard) or in the DidReuse
+   callback: the slot already carries the new value, the new generation and the new stamp,
+   exactly as after the completed call (hypothesis of cut_commit_state) *)
+Example ex_cut_reuse_commit :
+  let s := fst (run sh0 c2 (firstn 4 ops_reuse)) in
+  let '(s', out, _) := intern_cut sh0 c2 s 12 low 102 CutCallback in
+  out = RIntern 100 1 PReuse /\
+  option_map (fun sl => (s_val sl, s_gen sl, s_lia sl)) (st_slots s' 100) = Some (12, 1, 3) /\
+  st_keys s' 0 = [(12, 100); (11, 101)] /\ st_lru s' 0 = [100; 101] /\
+  s' = fst (fst (step sh0 c2 s (OIntern 0 12 low 102))).
+Proof. vm_compute. repeat split; reflexivity. Qed.
+
+(* the fast path cut in the DidValidateInternedValue callback: the stamp is refreshed, the
+   LRU position is not (101 stays in front), the durability is not raised -- the state of a
+   revalidation (cut_callback_is_step, second alternative) *)
+Example ex_cut_fast_is_revalidation :
+  let s := fst (run sh0 c2 (firstn 4 ops_reuse)) in
+  let '(s', out, evs) := intern_cut sh0 c2 s 10 high 999 CutCallback in
+  out = RIntern 100 0 PFast /\ evs = [EvValidate 100 0 3] /\
+  option_map (fun sl => (s_lia sl, s_dur sl)) (st_slots s' 100) = Some (3, D_LOW) /\
+  st_lru s' 0 = [101; 100] /\
+  st_lru (fst (fst (step sh0 c2 s (OIntern 0 10 high 999)))) 0 = [101] /\
+  s' = fst (fst (step sh0 c2 s (OMca 0 100 0 0))).
+Proof. vm_compute. repeat split; reflexivity. Qed.
+
+(* cut before the commit point (user Hash / Eq / assemble): only the revision queue moved *)
+Example ex_cut_early :
+  let s := fst (run sh0 c2 (firstn 4 ops_reuse)) in
+  let s' := fst (fst (intern_cut sh0 c2 s 12 low 102 CutEarly)) in
+  st_queue s = [2; 1] /\ st_queue s' = [3; 2] /\ st_keys s' 0 = st_keys s 0 /\
+  st_lru s' 0 = st_lru s 0.
+Proof. vm_compute. repeat split; reflexivity. Qed.
